@@ -266,24 +266,31 @@ theorem bd_step (s s' : LS) (e : Ev) (h : Bd s) (hs : s.step e = some s') : Bd s
       have hit' := h.fls it (List.mem_of_getElem? hit)
       split at hs
       · split at hs
-        · cases hs
-          exact bd_mk s _ rfl h.fq (fls_set s _ h.fls i _ (by exact h.fq it.rid))
-            (chain_unlink s h _ _ (by intro r hr; cases hr)) h.tgt
-        · rename_i m _
-          split at hs
+        · rename_i od _
+          cases hs
+          refine bd_mk s _ rfl (fq_upd s.n _ h.fq od _ (by exact h.fq od))
+            (fls_set s _ h.fls i _ (by exact h.fq it.rid))
+            (chain_unlink s h _ _ (fun r hr => List.mem_of_mem_erase hr)) ?_
+          exact tgt_upd s.n _ h.tgt od _ (by exact h.tgt od)
+        · split at hs
           · cases hs
-            exact bd_mk s _ rfl h.fq (fls_set s _ h.fls i _ (by intro x hx; cases hx))
-              (chain_unlink s h _ _ (cutAfter_subset _ _)) h.tgt
-          · rename_i fr hfr
-            have hfrn : fr < s.n := h.fq it.rid fr hfr
+            exact bd_mk s _ rfl h.fq (fls_set s _ h.fls i _ (by exact h.fq it.rid))
+              (chain_unlink s h _ _ (by intro r hr; cases hr)) h.tgt
+          · rename_i m _
             split at hs
-            · cases hs
-              refine bd_mk s _ rfl (fq_upd s.n _ h.fq m _ (by intro x hx; cases hx; exact hfrn))
-                (fls_set s _ h.fls i _ (by intro x hx; cases hx)) (chain_unlink s h _ _ (cutAfter_subset _ _)) ?_
-              exact tgt_upd s.n _ h.tgt m _ (by exact h.tgt m)
             · cases hs
               exact bd_mk s _ rfl h.fq (fls_set s _ h.fls i _ (by intro x hx; cases hx))
                 (chain_unlink s h _ _ (cutAfter_subset _ _)) h.tgt
+            · rename_i fr hfr
+              have hfrn : fr < s.n := h.fq it.rid fr hfr
+              split at hs
+              · cases hs
+                refine bd_mk s _ rfl (fq_upd s.n _ h.fq m _ (by intro x hx; cases hx; exact hfrn))
+                  (fls_set s _ h.fls i _ (by intro x hx; cases hx)) (chain_unlink s h _ _ (cutAfter_subset _ _)) ?_
+                exact tgt_upd s.n _ h.tgt m _ (by exact h.tgt m)
+              · cases hs
+                exact bd_mk s _ rfl h.fq (fls_set s _ h.fls i _ (by intro x hx; cases hx))
+                  (chain_unlink s h _ _ (cutAfter_subset _ _)) h.tgt
       · cases hs
     · cases hs
   | next i =>
